@@ -155,6 +155,13 @@ theorem registry_sorted :
     sortedStrict inputModules = true := by
   decide +kernel
 
+/-- 6a. The registered input formats are exactly the modules of the `iodata.inputs` package that define `write_input`
+(a helper module such as `common` is not an input format: naming it must give `FileFormatError` before any file is
+touched, by `selectInput_spec`). -/
+theorem input_modules_are_the_writers :
+    inputModules = (inputPackage.filter (·.2)).map (·.1) := by
+  decide +kernel
+
 /-- 6b. Every registered pattern is inside the modelled subset of `fnmatch` syntax. -/
 theorem patterns_in_subset :
     ∀ m ∈ registry, ∀ p ∈ m.patterns, '?' ∉ p ∧ '[' ∉ p ∧ ']' ∉ p := by
